@@ -10,6 +10,7 @@ import Driver.FlattenOps
 import Driver.RngOps
 import Driver.CollectiveOps
 import Driver.SnapshotOps
+import Driver.WorldOps
 import Driver.JsonOps
 import Driver.CommitOps
 import Driver.SchedOps
@@ -27,6 +28,7 @@ def handlers : List Handler := [
   CommitOps.handle,
   JsonOps.handle,
   SnapshotOps.handle,
+  WorldOps.handle,
   CollectiveOps.handle,
   RngOps.handle,
   FlattenOps.handle,
